@@ -2,6 +2,7 @@ package props
 
 import (
 	"bytes"
+	"context"
 	"encoding/hex"
 	"fmt"
 	"sort"
@@ -424,6 +425,28 @@ func runC03(c *fw.Ctx) {
 		fail("P at the end: %s", f)
 		return
 	}
+	// what the block has pending must be the complete difference to the base: save it into (a copy of) the base store
+	// and read the block's content from that store alone
+	if !persistentBase {
+		target := util.NewMemoryNodeDB()
+		_ = base.Iterate(context.Background(), func(ctx context.Context, key util.Key, node util.Node) error {
+			return target.PutNode(key, node)
+		})
+		if err := P.t.SaveChanges(context.Background(), target, false); err != nil {
+			fail("SaveChanges of the block failed: %v", err)
+			return
+		}
+		F := lab.NewMPT(target, 2, P.t.GetRoot())
+		if has, _ := F.HasMissingNodes(context.Background()); has {
+			fail("the block's pending changes are incomplete: after saving them on top of the base state a fresh trie at the block's root has missing nodes")
+			return
+		}
+		if f := lab.CheckMap(F, P.model, nil); f != "" {
+			fail("after saving the block's pending changes on top of the base state: %s", f)
+			return
+		}
+		c.Count("blocks_saved_and_reread", 1)
+	}
 	c.Count("blocks", 1)
 	if grand > 0 {
 		c.Count("blocks_with_grandchildren", 1)
@@ -470,7 +493,7 @@ func init() {
 		Rule: "each case is one block history: a base state (memory or persistent store), a block trie P layered over it, and 6..24 (quick) / 6..46 (thorough) steps drawn from {open a child of P or a grandchild, 1-3 insert/delete operations inside an open child, " +
 			"a direct write on P, merge a child into its parent (fresh or stale; MergeMPTChanges, or for a quarter MergeChanges with the child's GetChanges()), discard a child}; several children are open at the same time. Two wirings alternate: a fresh cache per trie, and one block cache shared by per-trie transaction caches committed on merge. " +
 			"Monitors: child view == parent-at-open ⊕ own writes (map model, after every child operation); the observation tuple (root, Iterate content, pending changes hash->encoding/old hash, pending deletes, start root) of every other open trie is byte-identical " +
-			"before/after child operations, discards and rejected merges; a stale merge must be rejected; after a successful merge parent root/content == child's; pending changes are keyed by the hash of their encoding and equal the stored node. " +
+			"before/after child operations, discards and rejected merges; a stale merge must be rejected; after a successful merge parent root/content == child's; pending changes are keyed by the hash of their encoding and equal the stored node; at the end of half of the blocks the pending changes are saved on top of a copy of the base state and a fresh trie must read the block's content from that store alone. " +
 			"non-trivial = block with at least one successful merge and at least one discard or stale merge; distinct by trace hash",
 		Cases: func(tier string) int {
 			if tier == "thorough" {
@@ -479,7 +502,7 @@ func init() {
 			return 40000
 		},
 		Run:    runC03,
-		Floors: map[string]int64{"blocks": 20000, "merges": 20000, "discards": 10000, "stale_merges": 2000, "tuple_comparisons": 100000, "child_ops": 100000, "blocks_with_grandchildren": 2000, "merges_via_MergeChanges": 5000},
+		Floors: map[string]int64{"blocks": 20000, "merges": 20000, "discards": 10000, "stale_merges": 2000, "tuple_comparisons": 100000, "child_ops": 100000, "blocks_with_grandchildren": 2000, "merges_via_MergeChanges": 5000, "blocks_saved_and_reread": 15000},
 		Assumptions: []string{
 			"after a parent's root moves (successful merge of a sibling or direct write), the remaining children are stale: only the rejection of their merge and the parent's unchangedness are checked, not their views",
 			"a stale child whose merge would change the parent must be rejected with an error (accepting it silently drops a published sibling)",
